@@ -92,10 +92,14 @@ CLAIMED["C10"] = {
 }
 CLAIMED["C12"] = {
     "engine": "E2 event words + E4 decision table",
-    "technique": "routing by interprocedural event words; decision-table extraction of HelpRequest::from_command by abstract interpretation (closure predicate evaluated on every argument shape)",
+    "technique": "routing by interprocedural event words; decision-table extraction of HelpRequest::from_command by abstract interpretation; bounded-exhaustive abstract exploration of derive-generated help code against a declaration oracle",
     "text": ("Decides routing (the help check directly follows command construction; a request never reaches the handler; All->list_commands, "
-             "Command->command_help on the requested command; unknown -> `error: unknown command`) and the complete decision table of "
-             "HelpRequest::from_command against the statement. Not decided yet: completeness of generated help text (table rule pending), layout."),
+             "Command->command_help on the requested command; unknown -> `error: unknown command`), the complete decision table of "
+             "HelpRequest::from_command against the statement, and for the declaration corpus the derive-generated help: list_commands / "
+             "command_count / group listing against the oracle, UnknownCommand for undeclared names, the option-skipping walker on every argument "
+             "word up to the depth bound (own help vs. delegation to the right sub-command), and the presence of usage path, positionals, every "
+             "option with its names and value name, `-h, --help` and the sub-command list in a command's own help. Not decided: text layout, "
+             "declarations outside the corpus."),
     "design_ref": "DESIGN.md §4 C12",
     "note": TB,
 }
@@ -209,4 +213,18 @@ CLAIMED["C17"] = {
              "The composition of (A) and (D) into `count = number of scalars` is an argument in DESIGN.md, its premises are what is checked."),
     "design_ref": "DESIGN.md §4 C17",
     "note": TB + " The UTF-8 bit layout (FORMS in rules/C17.py) and specs/utf8.py are the references.",
+}
+
+CLAIMED["C09"] = {
+    "engine": "bounded-exhaustive abstract exploration of generated code + E2",
+    "technique": "abstract interpretation of derive-generated parsers with the argument iterator as an event, forking over the alphabet of argument shapes for every word up to a depth bound, compared with reference semantics on a declaration oracle; event analysis of generated processors and group parsers; sibling check of the FromArgument instances",
+    "text": ("For the declaration corpus (fixtures/decls with a hand-written oracle: unit/struct/tuple variants, positionals, options, flags, every "
+             "FromArgument type, Option, default_value, default_value_t, custom short/long/value_name/name, nested sub-commands, groups, hidden "
+             "groups) decides that the generated FromRaw::parse yields exactly the variant / field values / error the statement gives, for every "
+             "argument word up to the depth bound (3 quick, 4 thorough) over declared and undeclared options, values with succeeding or failing "
+             "conversion, `--` and end; that generated processors call the handler exactly when parsing succeeded; that groups try members in "
+             "order and pass on only on UnknownCommand; that each of the 16 FromArgument instances parses at and reports its own type; and that "
+             "process_error prints one `error:` line. Not decided: declarations outside the corpus, longer words."),
+    "design_ref": "DESIGN.md §4 C09",
+    "note": TB + " fixtures/decls/oracle.json and genfsm.ref_parse are the references.",
 }
